@@ -379,6 +379,24 @@ def real_roundtrip(ctx, case, root):
         fails.append(('write-raises', f"save_catalog raised {type(e).__name__}: {e}",
                       dict(exception=type(e).__name__, empty_first_string=bool(empty_first))))
         return obs
+    # the caller's catalogue must come back as it was passed (same objects, same order, same attribute
+    # values; float32 -> float64 of the same value by _sanitise is the documented exception)
+    mutated = None
+    if len(cat) != len(cat_spec):
+        mutated = f"catalogue list has {len(cat)} entries after the call, {len(cat_spec)} before"
+    else:
+        for k, (obj, (letter, attrs)) in enumerate(zip(cat, cat_spec)):
+            for n, e in (attrs or {}).items():
+                x, y = dec(e), getattr(obj, n, '<missing>')
+                same = (isinstance(y, str) and y == x) if isinstance(x, str) else \
+                    (not isinstance(y, str) and ((is_nan(x) and typed_nan(y)) or (not is_nan(x) and y == x)))
+                if not same:
+                    mutated = f"source {k} attribute {n} was {x!r} before save_catalog and is {y!r} after"
+                    break
+            if mutated:
+                break
+    if mutated:
+        fails.append(('argument-mutated', mutated, {}))
     root_, ext_ = os.path.splitext(fn)
     present_all = sorted(os.listdir(d))
     by_letter = {L: [k for k, (l, _) in enumerate(cat_spec) if l == L] for L in 'CIS'}
@@ -912,7 +930,7 @@ def bytes_per_row(ctx, ext):
             warnings.simplefilter('ignore')
             with np.errstate(all='ignore'):
                 C.save_catalog(os.path.join(d, 'm.' + ext), build(cat))
-        cache[ext] = max(1, os.path.getsize(os.path.join(d, 'm_comp.' + ext)) // 64)
+        cache[ext] = max(1, max(os.path.getsize(os.path.join(d, f)) for f in os.listdir(d)) // 64)
     return cache[ext]
 
 
